@@ -622,6 +622,7 @@ class ExprMixin:
             st.env = saved
         et = as_v(elt)
         out = L.fresh("comp")
+        st.assume(out != L.NONE)
         tag = "Seq[%s]" % elt.tag if getattr(elt, "tag", None) else "seq"
         if not conds:
             st.assume(L.len_(out) == n)
@@ -675,6 +676,7 @@ class ExprMixin:
             st.qctx.pop()
             st.env = saved
         out = L.fresh("dcomp")
+        st.assume(out != L.NONE)
         P = z3.And(*conds) if conds else z3.BoolVal(True)
         src_of = L.fresh_fn("dsrc", L.V, L.I)   # skolem: source index of a key of the result
         k = L.fresh("k")
